@@ -618,8 +618,8 @@ void numeric_same_type(Ctx& c)
     } else {
         report_all<KIpow<T, T, Axis<T, EdgeGrid>, Range<0, 70>>>(c);
     }
-    report_all<KIpowFixed<T, T(2)>, KIpowFixed<T, T(3)>, KIpowFixed<T, T(10)>>(c);
-    if constexpr (std::is_signed_v<T>) { report_all<KIpowFixed<T, T(-2)>, KIpowFixed<T, T(-3)>>(c); }
+    report_all<KIpowFixed<T, T(0)>, KIpowFixed<T, T(1)>, KIpowFixed<T, T(2)>, KIpowFixed<T, T(3)>, KIpowFixed<T, T(4)>, KIpowFixed<T, T(8)>, KIpowFixed<T, T(10)>, KIpowFixed<T, T(16)>>(c);
+    if constexpr (std::is_signed_v<T>) { report_all<KIpowFixed<T, T(-1)>, KIpowFixed<T, T(-2)>, KIpowFixed<T, T(-3)>, KIpowFixed<T, T(-4)>>(c); }
 }
 #endif
 
